@@ -110,6 +110,12 @@ CLAIMS = {
         "Trusted: clang (parse/type-check only) with a declaration-only nlohmann/json stub; jinja2 parser.",
         "DESIGN.md §4 C03",
     ),
+    "C19": (
+        "abstract instantiation of the two device templates (never rendered) into one C unit typed by clang; shape rules S1-S3 of the reference automaton on the scheduler's AST; Jinja-AST rules for the slot index / array length / message naming; def-use of the period on the Python side",
+        "Narrow (conformance of the control skeleton to the reference automaton): the scheduler returns first when the timestamp equals the previous call's and then records it; each message's send is control-dependent on exactly `period != -1 && (uint32_t) time - last_send[idx] >= period`; inside the guard the frame sent is the encoding of the same message's member of the device and last_send[idx] = time follows with the same idx; nothing else writes the state; idx is loop.index0 of the message loop, the array has messages|length slots, both period macros and the encode call name the loop's message; period comes from the binding's 'period' field, default -1. Holds for every device and call history because the generic message block is checked once.",
+        "Trusted: clang's typing of the abstract instance; C semantics of unsigned wrap-around; the encode function itself (C06); static zero initialisation.",
+        "DESIGN.md §4 C19",
+    ),
 }
 
 NOT_BUILT = "check not built yet in this session (see DESIGN.md §7 build order); not claimed until it exists"
